@@ -40,6 +40,27 @@ type Frame struct {
 	topLevel bool
 	lit      *ast.FuncLit
 	callStack []string
+	bigTemps []bigTemp
+}
+
+// bigTemp: a temporary *big.Int standing for the address of a big.Int struct field (see addrOf).
+type bigTemp struct {
+	ref  string
+	expr *ast.SelectorExpr
+}
+
+// flushBigTemps writes the values behind temporary field addresses back into the fields.
+func (fr *Frame) flushBigTemps(s *State, n int) {
+	if len(fr.bigTemps) <= n || s == nil || s.g == "false" {
+		fr.bigTemps = fr.bigTemps[:n]
+		return
+	}
+	ts := fr.bigTemps[n:]
+	fr.bigTemps = fr.bigTemps[:n]
+	for _, t := range ts {
+		v := &Val{T: fr.typeOf(t.expr), S: fmt.Sprintf("(select %s %s)", s.heap("H:big", "(Array Int Int)"), t.ref)}
+		fr.assign(s, t.expr, v, t.expr.Pos())
+	}
 }
 
 func (fr *Frame) unsupported(pos token.Pos, what string) {
